@@ -16,10 +16,11 @@ func init() {
 	register(&Prop{
 		ID:          "C16",
 		Title:       "Message comparers are sound equivalences",
-		Explanation: "R16.1 the default comparer mirrors proto.Equal structurally: compare handles nil and validity, equalMessage rejects different descriptors, stops at the first unequal field, requires the field to be set on both sides, compares field counts and unknown fields; equalField dispatches lists and maps before scalars and its change_time exception needs both the field name and a containing message called Change; equalValue covers every protoreflect.Kind with the accessor of that kind (NaN equal to NaN for floats) and consults the value comparer first, honouring its ok flag. R16.2 each tolerance comparer returns ok=false on every path where the field is not of its own kind / message type. R16.3 whenever a tolerance comparer decides (ok=true) its verdict is a constant, an agreement of validity, or `absdiff(x, y) <=/< T` where absdiff is one of the accepted absolute-difference idioms over one quantity derived from x and one derived from y, and T depends on x and y only through min/max of the same function of both (reflexive and symmetric by form). DurationValueWithinP does not have this form: recorded known finding F-15. R16.4 And/Or return at the first false/true and true/false after the loop; ValueAnd/ValueOr propagate ok only from comparers that spoke. R16.5 the resources apply the equivalence to projected values and skip only on its verdict (shared with R04.5/R04.6). R16.1 equalMessage: two passes whose per-field tables are both-populated -> equalField, one side only and zero-comparable (value comparer configured, singular field without presence) -> the configured comparer's verdict on the value and the zero value when it speaks, unequal when it does not (never the exact comparison of equalValue: a populated -0.0 is not an unset 0), otherwise unequal. R16.5 also: the equivalence is consulted only inside Pull subscriptions. Does NOT decide agreement with proto.Equal on all message pairs, tolerance arithmetic, NaN and unknown-field corner cases.",
+		Explanation: "R16.1 the default comparer mirrors proto.Equal structurally: compare handles nil and validity, equalMessage rejects different descriptors, stops at the first unequal field, requires the field to be set on both sides, compares field counts and unknown fields; equalField dispatches lists and maps before scalars and its change_time exception needs both the field name and a containing message called Change; equalValue covers every protoreflect.Kind with the accessor of that kind (NaN equal to NaN for floats) and consults the value comparer first, honouring its ok flag. R16.2 each tolerance comparer returns ok=false on every path where the field is not of its own kind / message type. R16.3 whenever a tolerance comparer decides (ok=true) its verdict is a constant, an agreement of validity, or `absdiff(x, y) <=/< T` where absdiff is one of the accepted absolute-difference idioms over one quantity derived from x and one derived from y, and T depends on x and y only through min/max of the same function of both (reflexive and symmetric by form). DurationValueWithinP does not have this form: recorded known finding F-15. R16.4 And/Or return at the first false/true and true/false after the loop; ValueAnd/ValueOr propagate ok only from comparers that spoke. R16.5 the resources apply the equivalence to projected values and skip only on its verdict (shared with R04.5/R04.6). R16.1 equalMessage: two passes whose per-field tables are both-populated -> equalField, one side only and zero-comparable (value comparer configured, singular field without presence) -> the configured comparer's verdict on the value and the zero value when it speaks, unequal when it does not (never the exact comparison of equalValue: a populated -0.0 is not an unset 0), otherwise unequal. R16.5 also: the equivalence is consulted only inside Pull subscriptions. R16.1 also: floats are compared by == on the accessor results themselves, not after another function (bit pattern, narrowing). Does NOT decide agreement with proto.Equal on all message pairs, tolerance arithmetic, NaN and unknown-field corner cases.",
 		Assumptions: []string{"math.Abs/Min/Max, time.Time.Sub/Before have their mathematical meaning"},
 		Run:         runC16,
 		Controls: []Control{
+			{Name: "floats-compared-by-bit-pattern", File: "pkg/cmp/cmp.go", Old: "\t\treturn fx == fy\n", New: "\t\treturn math.Float64bits(fx) == math.Float64bits(fy)\n", Expect: "R16.1"},
 			{Name: "no-duplicates-by-proto-equal", File: "pkg/resource/opt.go", Old: "func WithNoDuplicates() Option {\n\treturn WithMessageEquivalence(cmp.Equal())", New: "func WithNoDuplicates() Option {\n\treturn WithMessageEquivalence(proto.Equal)", Expect: "R16.8"},
 			{Name: "identity-shortcut-by-subtraction", File: "pkg/cmp/number.go", Old: "\t\tif fx == fy || (math.IsNaN(fx) && math.IsNaN(fy)) {", New: "\t\tif fx-fy == 0 || (math.IsNaN(fx) && math.IsNaN(fy)) {", Expect: "R16.6"},
 			{Name: "held-fallback-inverted", File: "pkg/resource/collection.go", Old: "\t\t\t\tlast, ok := held[change.Id]\n\t\t\t\tif !ok {\n", New: "\t\t\t\tlast, ok := held[change.Id]\n\t\t\t\tif ok {\n", Expect: "the held value is used when there is one"},
@@ -161,7 +162,7 @@ func r161(c *an.Ctx) {
 			case "Float":
 				// the verdict is `fx == fy, or both NaN`, as a truth table over the three tests this path may consult
 				// (whatever their order and short-circuiting); combinations that cannot occur (equal yet NaN) are skipped
-				var eqA, nxA, nyA string
+				var eqA, nxA, nyA, indirect string
 				scan := func(a string) {
 					hasX, hasY := strings.Contains(a, ".Float(x)"), strings.Contains(a, ".Float(y)")
 					switch {
@@ -171,6 +172,12 @@ func r161(c *an.Ctx) {
 						nyA = a
 					case hasX && hasY && strings.Contains(a, "=="):
 						eqA = a
+						// the comparison is Go's == on the two float values themselves (IEEE equality, +0 == -0, as
+						// proto.Equal has it): the same values sent through another function first (their bit
+						// patterns, a narrower type, a formatted string) are compared by a different relation
+						if strings.Count(a, "call") != 2 || strings.Contains(a, "convert") {
+							indirect = a
+						}
 					}
 				}
 				// math.IsNaN is pure: a second evaluation (`call#2 math.IsNaN(v)`) is the same test as the first
@@ -225,6 +232,9 @@ func r161(c *an.Ctx) {
 							}
 						}
 					}
+				}
+				if indirect != "" {
+					c.Bad(rule, name+"|"+kn+" values are compared directly", l.RetPos, "the two floats are compared as `"+indirect+"`, not by == on the values themselves: +0 and -0 (equal for proto.Equal) have different bit patterns, a narrowed value loses precision; messages that are equal are reported different")
 				}
 			default:
 				ok = strings.Contains(ret, "."+acc+"(x)") && strings.Contains(ret, "."+acc+"(y)") && strings.Contains(ret, "==")
